@@ -43,6 +43,9 @@ def configs() -> Dict[str, dict]:
     for i in range(3):
         a = [FAIL if j == i else 0.0 for j in range(3)]
         add(f"rs-fail-at-{i}", base, {"blocks": [{"mode": "by_position", "context": {"value": [1.0, 2.0, 3.0], "a": a}}]}, needs=())
+    # a key given once with --context and consumed destructively by every run of the run space
+    add("rs-consume", nodes("src_ctx", "failif", "ren_tagsrc") + VALID_TAIL, {"blocks": [{"mode": "by_position", "context": {"value": [1.0, 2.0, 3.0], "a": [0.0, 0.0, 0.0]}}]},
+        needs=("tagsrc",))
     add("use-before-create", nodes("src_ctx", "mul", "probe_factor") + VALID_TAIL, needs=("value", "factor"))
     add("delete-then-require", nodes("src_ctx", "probe_factor", "del_factor", "mul") + VALID_TAIL, invalid="config")
     add("unknown-processor", nodes("src_ctx", "unknown") + VALID_TAIL, invalid="config")
